@@ -1,5 +1,7 @@
 """Transformation in path."""
 
+import numpy as np
+
 from swcgeom.core import Path, Tree, redirect_tree
 from swcgeom.transforms.base import Transform
 
@@ -10,15 +12,16 @@ class PathToTree(Transform[Path, Tree]):
     """Transform path to tree."""
 
     def __call__(self, x: Path) -> Tree:
+        n_nodes = x.number_of_nodes()
         t = Tree(
-            x.number_of_nodes(),
+            n_nodes,
             type=x.type(),
-            id=x.id(),
+            id=np.arange(n_nodes),
             x=x.x(),
             y=x.y(),
             z=x.z(),
             r=x.r(),
-            pid=x.pid(),
+            pid=np.arange(-1, n_nodes - 1),
             source=x.source,
             comments=x.comments.copy(),
             names=x.names,
@@ -43,6 +46,6 @@ class PathReverser(Transform[Path, Path]):
     def __call__(self, x: Path) -> Path:
         x[0].type, x[-1].type = x[-1].type, x[0].type
         t = self.to_tree(x)
-        t = redirect_tree(t, x[-1].id)
+        t = redirect_tree(t, len(x) - 1)
         p = t.get_paths()[0]
         return p
